@@ -26,5 +26,6 @@ def run_driver(workdir, name, code, include_c=(), extra_c=(), args=(), asan=True
     if rc != 0:
         return -1, "native driver does not compile:\n" + o[-3000:]
     env_cmd = [exe] + [str(a) for a in args]
+    os.environ["ASAN_OPTIONS"] = "detect_leaks=0"
     rc, o, _ = core.sh(env_cmd, timeout=timeout)
     return rc, o
